@@ -4,7 +4,7 @@
 use super::common::*;
 use super::text::TOKENIZERS;
 use crate::engine::*;
-use crate::instr::{Ci, Win};
+use crate::instr::{Ch, Ci, CoarseHash, Win};
 use crate::oracles::*;
 use crate::spaces::*;
 use serde_json::{json, Value};
@@ -147,6 +147,29 @@ fn check_config<T: DiffableStr + ?Sized>(
             4 => cfg2.diff_graphemes(old, new),
             _ => cfg2.diff_slices(&slices_o, &slices_n),
         };
+        // ... and a clone of that configuration
+        let cfg3 = cfg2.clone();
+        let diff3 = match t {
+            0 => cfg3.diff_lines(old, new),
+            1 => cfg3.diff_words(old, new),
+            2 => cfg3.diff_chars(old, new),
+            #[cfg(feature = "unicode")]
+            3 => cfg3.diff_unicode_words(old, new),
+            #[cfg(feature = "unicode")]
+            4 => cfg3.diff_graphemes(old, new),
+            _ => cfg3.diff_slices(&slices_o, &slices_n),
+        };
+        if diff3.algorithm() != alg || diff3.newline_terminated() != want_nl || diff3.ops() != diff.ops() {
+            return Err(format!(
+                "a CLONE of a config set to ({:?}, newline_terminated {:?}) gives algorithm {:?}, newline_terminated {}, ops {:?}; the original gives {:?}",
+                alg,
+                nl,
+                diff3.algorithm(),
+                diff3.newline_terminated(),
+                diff3.ops(),
+                diff.ops()
+            ));
+        }
         if diff2.algorithm() != alg || diff2.newline_terminated() != want_nl || diff2.ops() != diff.ops() {
             return Err(format!(
                 "a config set to other values first, used once and then set to ({:?}, newline_terminated {:?}) gives algorithm {:?}, newline_terminated {}, ops {:?}; a fresh config gives {:?}",
@@ -262,6 +285,12 @@ pub fn check_case(old: &[u8], new: &[u8], pad: usize, lcs_too: bool) -> Result<(
                         .map_err(|e| what(format!("case-insensitive DiffableStr: {}", e)))?;
                     fp.add(r.2);
                     n += 1;
+                    // ... and one with byte-wise equality whose hash is only the token length
+                    let r = subject(|| check_config::<Ch>(t, alg, nl, Ch::new(a.as_bytes()), Ch::new(b.as_bytes())))
+                        .map_err(|p| what(format!("DiffableStr with a coarse hash: panic: {}", p)))?
+                        .map_err(|e| what(format!("DiffableStr with a coarse hash (token length only): {}", e)))?;
+                    fp.add(r.2);
+                    n += 1;
                 }
             }
         }
@@ -295,6 +324,33 @@ where
             "IdentifyDistinct::<{}>: ranges {:?}/{:?} returned for requested {:?}/{:?}",
             name, gor, gnr, or, nr
         ));
+    }
+    // the same items as a type whose (legal) hash is coarse: unequal items share hash values
+    {
+        let fo_c: Vec<CoarseHash> = fo.iter().map(|&x| CoarseHash(x)).collect();
+        let fn_c: Vec<CoarseHash> = fnw.iter().map(|&x| CoarseHash(x)).collect();
+        let (oc, nc) = subject(|| {
+            let h = IdentifyDistinct::<Int>::new(&fo_c[..], or.clone(), &fn_c[..], nr.clone());
+            let oc: Vec<Int> = or.clone().map(|i| h.old_lookup()[i]).collect();
+            let nc: Vec<Int> = nr.clone().map(|i| h.new_lookup()[i]).collect();
+            (oc, nc)
+        })
+        .map_err(|p| format!("IdentifyDistinct::<{}> over items with a coarse hash: panic: {}", name, p))?;
+        let items: Vec<u8> = old.iter().chain(new.iter()).copied().collect();
+        let ids: Vec<Int> = oc.iter().chain(nc.iter()).copied().collect();
+        for i in 0..items.len() {
+            for j in 0..items.len() {
+                if (items[i] == items[j]) != (ids[i] == ids[j]) {
+                    return Err(format!(
+                        "IdentifyDistinct::<{}> over items whose hash is coarse (parity only), old={:?}[{:?}] new={:?}[{:?}]: items {} and {} (of old++new) are {} but their ids {:?} and {:?} are {}",
+                        name, fo, or, fnw, nr, i, j,
+                        if items[i] == items[j] { "equal" } else { "different" },
+                        ids[i], ids[j],
+                        if ids[i] == ids[j] { "equal" } else { "different" }
+                    ));
+                }
+            }
+        }
     }
     let items: Vec<u8> = old.iter().chain(new.iter()).copied().collect();
     let ids: Vec<Int> = oi.iter().chain(ni.iter()).copied().collect();
